@@ -183,6 +183,7 @@ pub fn replay(rep: &Report, stage: &str, j: &serde_json::Value) -> i32 {
     match stage {
         "invariants-faults" => crate::registry::replay_stage(rep, &C04 { cfg: cfg_faults(), name: "invariants-faults" }, j),
         "many-containers" => crate::registry::replay_stage(rep, &super::c14::ManyContainers, j),
+        "large-table" => crate::registry::replay_stage(rep, &super::c01::LargeTable, j),
         _ => crate::registry::replay_stage(rep, &C04 { cfg: cfg_plain(), name: "invariants" }, j),
     }
 }
@@ -203,4 +204,7 @@ pub fn run(rep: &Report) {
     // the short histories above never enter: C14's many-containers stage (bulk load of >1000 containers, directed
     // age-ordered unions, invariants after every command) is run here too
     rep.explore(&super::c14::ManyContainers, rep.tier.pick(80, 2500), 80);
+    // likewise C01's large-table stage (>10 000 rows, a handful of unions: incremental, index-driven table rebuild);
+    // its per-command checks include "no stored id is non-canonical"
+    rep.explore(&super::c01::LargeTable, rep.tier.pick(32, 1000), 64);
 }
